@@ -12,9 +12,9 @@
     deletion and take the file with it.
   * only with `--hard-links`: `InoConsistent scan` (names of one inode carry the same data).
   Type conflicts need no hypothesis: a destination directory where the source has a file or
-  link, or a non-directory above a selected entry, make the task fail, which `exit = 0` excludes.
-  The one conflict that does *not* fail is a non-directory where the source has a directory:
-  `C01_counterexample_dir_over_nondir`.
+  link, a non-directory above a selected entry, or a non-directory where the source has a
+  directory (`C01_dir_over_nondir_fails`, planned as a creation since fix 481828a) make the task
+  fail, which `exit = 0` excludes.
 -/
 import SyModel.Lemmas.EnginePost
 namespace SyModel.Props.C01
@@ -50,9 +50,8 @@ theorem C01 (cfg : Cfg) (hnd : cfg.dryRun = false) (flt : Faults) (scan : List S
     (hino : cfg.hardlinks = true → InoConsistent scan)
     (hok : (runF cfg flt scan dst n).exit = 0) :
     ∀ e ∈ scanFilter cfg scan,
-      -- a selected directory is a directory (a non-directory already there: see the counterexample)
-      (e.kind = .dir → e.rel ≠ [] → (dst.get? e.rel = none ∨ dst.get? e.rel = some .dir) →
-        (runF cfg flt scan dst n).dst.get? e.rel = some .dir) ∧
+      -- a selected directory is a directory, whatever the destination contained before
+      (e.kind = .dir → e.rel ≠ [] → (runF cfg flt scan dst n).dst.get? e.rel = some .dir) ∧
       -- a selected regular file is a regular file; transferred ones carry the source's data
       (∀ m k, e.kind = .file m k → ∃ d, (runF cfg flt scan dst n).dst.get? e.rel = some (.file d) ∧
         (planFileAct cfg m (dst.get? e.rel) ≠ .skip → Carries cfg d m)) ∧
@@ -71,11 +70,8 @@ theorem C01 (cfg : Cfg) (hnd : cfg.dryRun = false) (flt : Faults) (scan : List S
   have hr := runF_exit_zero hok
   rw [(runF_of_not_refused hr.1).1]
   have ep := run_entry_post hnd flt scan dst n hu hdel hino (taskOk_of_exit_zero hok (planEntry_mem_plan he))
-  refine ⟨fun hk hne hd => ?_, fun m k hk => ?_, ep.link_preserve, fun text m hk hl => ?_,
+  refine ⟨ep.dir, fun m k hk => ?_, ep.link_preserve, fun text m hk hl => ?_,
     fun text tgt hk hl hc => ?_⟩
-  · rcases hd with hd | hd
-    · exact ep.dir_new hk hne hd
-    · rw [ep.dir_old hk (by rw [hd]; simp), hd]
   · obtain ⟨d, h1, _, h3, _⟩ := ep.file m k hk
     exact ⟨d, h1, h3⟩
   · obtain ⟨d, h1, _, h3, _⟩ := ep.link_follow text m hk hl
@@ -99,21 +95,55 @@ theorem C01_skipped_untouched (cfg : Cfg) (hnd : cfg.dryRun = false) (flt : Faul
   obtain ⟨d, _, h2, _⟩ := ep.file m k hk
   exact h2 hs
 
-/-- An existing destination node at the path of a selected directory is kept as it is (sy plans
-    directories by existence only). -/
+/-- An existing destination directory at the path of a selected directory is kept (planned as
+    `skip`); nothing else can be there after a run that exits 0. -/
 theorem C01_existing_dir_node_kept (cfg : Cfg) (hnd : cfg.dryRun = false) (flt : Faults) (scan : List SEntry)
     (dst : Map DNode) (n : Nat) (hu : UniqueRels scan)
     (hdel : cfg.delete = true → ParentClosed scan ∧ dst.get? [] = none)
     (hino : cfg.hardlinks = true → InoConsistent scan)
     (hok : (runF cfg flt scan dst n).exit = 0) (e : SEntry) (he : e ∈ scanFilter cfg scan)
-    (hk : e.kind = .dir) (hp : dst.get? e.rel ≠ none) :
-    (runF cfg flt scan dst n).dst.get? e.rel = dst.get? e.rel := by
-  have hr := runF_exit_zero hok
-  rw [(runF_of_not_refused hr.1).1]
-  exact (run_entry_post hnd flt scan dst n hu hdel hino
-    (taskOk_of_exit_zero hok (planEntry_mem_plan he))).dir_old hk hp
+    (hk : e.kind = .dir) (hne : e.rel ≠ []) (hp : dst.get? e.rel ≠ none) :
+    dst.get? e.rel = some .dir ∧ (runF cfg flt scan dst n).dst.get? e.rel = dst.get? e.rel := by
+  have ep := entryPost_of_exit_zero hnd flt scan dst n hu hdel hino he hok
+  rcases ep.dir_pre hk hne with h | h
+  · exact absurd h hp
+  · exact ⟨h, by rw [ep.dir hk hne, h]⟩
 
-/-! ### the excluded point, kept visible -/
+/-- **A non-directory where the source has a directory makes the run fail** (it is planned as a
+    creation, `create_dir_all` hits the existing entry): the exit status is non-zero and, unless
+    the run was refused by the deletion guard, the failed creation is in the error list — under
+    every fault plan.  (Before fix 481828a this was planned as `skip` and silently left alone.) -/
+theorem C01_dir_over_nondir_fails (cfg : Cfg) (hnd : cfg.dryRun = false) (flt : Faults) (scan : List SEntry)
+    (dst : Map DNode) (n : Nat) (hu : UniqueRels scan)
+    (hdel : cfg.delete = true → ParentClosed scan ∧ dst.get? [] = none)
+    (hino : cfg.hardlinks = true → InoConsistent scan)
+    (e : SEntry) (he : e ∈ scanFilter cfg scan) (hk : e.kind = .dir) (hne : e.rel ≠ [])
+    (v : DNode) (hv : dst.get? e.rel = some v) (hvd : v ≠ .dir) :
+    (runF cfg flt scan dst n).exit ≠ 0 ∧
+    ((runF cfg flt scan dst n).refused = false → (Act.create, e.rel) ∈ (runF cfg flt scan dst n).errors) := by
+  have hnd' : dst.get? e.rel ≠ some .dir := by rw [hv]; simpa using hvd
+  have hpe : planEntry cfg dst e = ⟨.create, e.rel, .dir⟩ := by
+    unfold planEntry; simp only [hk]
+  have notOk : ¬ TaskOk cfg flt (plan cfg scan dst) (initExec dst n) (planEntry cfg dst e) := by
+    intro hok
+    have ep := run_entry_post hnd flt scan dst n hu hdel hino hok
+    rcases ep.dir_pre hk hne with h | h
+    · rw [hv] at h; cases h
+    · exact hnd' h
+  refine ⟨fun h0 => notOk (taskOk_of_exit_zero h0 (planEntry_mem_plan he)), fun hr => ?_⟩
+  obtain ⟨_, h2, h3, _⟩ := runF_of_not_refused hr
+  have hacc := task_accounted (cfg := cfg) (flt := flt) (plan cfg scan dst) (initExec dst n)
+    (planEntry_mem_plan (dst := dst) he)
+  rw [hpe] at hacc
+  rcases hacc with h | h
+  · exfalso
+    apply notOk
+    have hev : ((planEntry cfg dst e).act, e.rel) ∈ (runF cfg flt scan dst n).events := by
+      rw [hpe, h2, List.mem_reverse]; exact h
+    exact (completed_of_event hu he hev).2
+  · rw [h3, List.mem_reverse]; exact h
+
+/-! ### the former counterexample, now an error -/
 
 def cxCfg : Cfg where
   delete := false
@@ -129,16 +159,19 @@ def cxCfg : Cfg where
   maxErrors := 100
   tie := false
 
-/-- **The full-strength statement ("whatever the destination contained before") is false for
-    directories**: a selected (empty) source directory `d` against a destination that has a
-    regular file `d` is planned as `skip` (directories are compared by existence), nothing fails,
-    the run exits 0 and `d` is still a regular file.  Confirmed on the binary: `mkdir -p src/d dst;
-    echo x > dst/d; sy src/ dst/` → a `skip` event for `d`, exit 0, `dst/d` still a regular file. -/
-theorem C01_counterexample_dir_over_nondir :
-    let scan : List SEntry := [⟨["d"], .dir, 4096, false⟩]
-    let dst : Map DNode := [(["d"], .file (exMeta 1 2 3 4))]
-    (run cxCfg scan dst 10).exit = 0 ∧ (⟨["d"], .dir, 4096, false⟩ : SEntry) ∈ scanFilter cxCfg scan ∧
-      (run cxCfg scan dst 10).dst.get? ["d"] ≠ some .dir := by decide
+/-- the witness of the former `C01_counterexample_dir_over_nondir` (source directory `d`, destination
+    regular file `d`): the run now fails with the creation of `d` in its error list -/
+example :
+    (run cxCfg [⟨["d"], .dir, 4096, false⟩] [(["d"], .file (exMeta 1 2 3 4))] 10).exit ≠ 0 ∧
+    (Act.create, ["d"]) ∈ (run cxCfg [⟨["d"], .dir, 4096, false⟩] [(["d"], .file (exMeta 1 2 3 4))] 10).errors := by
+  have h := C01_dir_over_nondir_fails cxCfg rfl noFaults [⟨["d"], .dir, 4096, false⟩]
+    [(["d"], .file (exMeta 1 2 3 4))] 10 (by decide) (fun h => by cases h) (fun h => by cases h)
+    ⟨["d"], .dir, 4096, false⟩ (by decide) rfl (by decide) (.file (exMeta 1 2 3 4)) (by decide) (by decide)
+  exact ⟨h.1, h.2 (by decide)⟩
+
+/-- the destination is left as it was (the failed task changes nothing) -/
+example : (run cxCfg [⟨["d"], .dir, 4096, false⟩] [(["d"], .file (exMeta 1 2 3 4))] 10).dst
+    = [(["d"], .file (exMeta 1 2 3 4))] := by decide
 
 /-! ### non-vacuity -/
 
